@@ -102,6 +102,55 @@ func ruleC07Count(c *Ctx) {
 			c.undecided("C07.count", "register-unconditional", call.Pos(), name, "cannot find the ReferenceRoot type assertion guarding the registration")
 		}
 	}
+	// no successful way out of the scanner avoids the registration: an early
+	// `return report, nil` leaves reference_count and the tallies at zero
+	if l != nil {
+		anchor := l.Head
+		if regFn != si.Fn {
+			anchor = nil
+			if cs := callsTo(si.Fn, regFn); len(cs) == 1 {
+				anchor = cs[0].Block()
+			}
+		}
+		nRet := 0
+		for _, ret := range returnsOf(si.Fn) {
+			if anchor == nil || len(ret.Results) == 0 || !isErrorType(ret.Results[len(ret.Results)-1].Type()) {
+				continue
+			}
+			nRet++
+			maySucceed := false
+			for _, v := range c.resultValues(ret, len(ret.Results)-1) {
+				if isNilConst(v) {
+					maySucceed = true
+					continue
+				}
+				known := false
+				for _, f := range factsAt(ret.Block()) {
+					cond, truth := normCond(f.Cond, f.Truth)
+					if m, isNil := errNilFact(cond, truth, v); m && !isNil {
+						known = true
+					}
+				}
+				if !known {
+					if _, isCall := v.(*ssa.Call); isCall {
+						known = true // `return x, wrap(err)`: a constructed error
+					}
+					if _, isMI := v.(*ssa.MakeInterface); isMI {
+						known = true
+					}
+				}
+				if !known {
+					maySucceed = true
+				}
+			}
+			if maySucceed && !anchor.Dominates(ret.Block()) {
+				c.violate("C07.count", "register-reached", ret.Pos(), fnName(si.Fn), "the scanner can return successfully without having passed the reference registration loop: the reference count and every tally stay at zero on that path")
+			}
+		}
+		if nRet > 0 && c.seen("C07.count", "register-reached") == nil {
+			c.hold("C07.count", "register-reached", call.Pos(), fmt.Sprintf("each of the scanner's %d returns either carries a non-nil error or is dominated by the registration loop", nRet))
+		}
+	}
 	// inside RegisterReference: count += 1 once; one tally update per group
 	ecCount := c.effectCounter(func(ed *effEdge) bool { return ed.Target == "H:reference_count" }, false)
 	if r := ecCount.function(regRef); r.Min == 1 && r.Max == 1 {
